@@ -288,12 +288,20 @@ def validate_scalar(value: Any, dtype: DataType) -> Any:
         return value
 
     # Numeric coercions
+    # (an int beyond float range has no float / complex form; it still belongs to the column,
+    # which keeps raw values: accept it as it is)
     if dtype.kind is float and vtype in (int, bool):
-        return float(value)
+        try:
+            return float(value)
+        except OverflowError:
+            return value
     if dtype.kind is int and vtype is bool:
         return int(value)
     if dtype.kind is complex and vtype in (int, float, bool):
-        return complex(value)
+        try:
+            return complex(value)
+        except OverflowError:
+            return value
 
     # Temporal promotion
     if dtype.kind is datetime and vtype is date:
